@@ -161,7 +161,10 @@ pub fn virtual_start(start: Instant) -> Instant {
         CLOCK_FIRED.store(true, Ordering::Relaxed);
         far_past()
     } else {
-        Instant::now()
+        // an instant in the future: `elapsed()` saturates to zero however long the thread is
+        // descheduled between this call and the comparison (with `Instant::now()` a 50 ms
+        // preemption made a 50 ms limit expire by itself under load)
+        Instant::now() + Duration::from_secs(86_400)
     }
 }
 
